@@ -43,6 +43,7 @@ CXX_PATTERNS = ["ns::foo(int)", "ns::bar()", "foo(int)", "quux()", "ns::*", "ns:
 KNOWN_TIER = "wildcard-precedence:starless-glob-tier"
 KNOWN_GLOBAL = "wildcard-precedence:global-over-later-local"
 KNOWN_SYMVER = "symver-default-made-local-by-wildcard"
+KNOWN_SYMVER_OLD = "symver-nondefault-local-in-own-node"
 KNOWN_CXXLOCAL = "exact-cxx-global-vs-plain-local-same-node"
 
 
@@ -220,6 +221,13 @@ def symver_class(nodes, symver=1):
         used = [nodes[-1]] + ([nodes[0]] if symver == 2 and len(nodes) > 1 else [])
         if not all(any(matches(p, "sv") for p in n["local"]) for n in used):
             return KNOWN_SYMVER
+    if symver == 2 and len(nodes) > 1:
+        # `.symver sv_old, sv@Vfirst`: GNU ld consults only node Vfirst; when that node's local: list
+        # matches `sv` (and its global: list does not), GNU ld makes sv@Vfirst local. wild keeps it as
+        # a hidden-version dynamic symbol.
+        n0 = nodes[0]
+        if any(matches(p, "sv") for p in n0["local"]) and not any(matches(p, "sv") for p in n0["global"]):
+            return KNOWN_SYMVER_OLD
     return None
 
 
